@@ -182,7 +182,7 @@ func main() {
 	r.Assume("items whose two runs alone (different sessions) differ, and items declared volatile (process list, status counters, connection id), are executed for the race detector but their results are not compared")
 	r.Extra("race_build", g4lib.RaceEnabled())
 
-	e := core.NewEng("d")
+	e := core.NewEng("c36db") // a name no other monitor uses: a client that lands on a foreign server (port shared via SO_REUSEPORT) fails at connect
 	setup := e.NewSess()
 	setupDB(setup)
 	srv, err := e.StartServer()
@@ -418,7 +418,7 @@ func main() {
 								r.Count("items.executed-not-compared", 1)
 								if p := bad(got); strings.HasPrefix(p, "PANIC:") {
 									r.Eval(1)
-									r.Violation("concurrent-"+core.Clip(p, 100), map[string]any{"route": rt, "item": it, "result": core.Clip(got, 2000)})
+									r.Violation(g4lib.Sig("concurrent-"+core.Clip(p, 100)), map[string]any{"route": rt, "item": it, "result": core.Clip(got, 2000)})
 								}
 								continue
 							}
@@ -482,7 +482,7 @@ func main() {
 			if p := bad(m.got); p != "" {
 				sig = "concurrent-failure:" + m.route + ":" + it.Kind + ":" + core.Clip(p, 80)
 			}
-			r.Violation(sig, map[string]any{"route": m.route, "item": it, "alone": core.Clip(cal[m.route].base[it.Kind], 3000), "concurrent": core.Clip(m.got, 3000), "session": m.sid, "rep": m.rep})
+			r.Violation(g4lib.Sig(sig), map[string]any{"route": m.route, "item": it, "alone": core.Clip(cal[m.route].base[it.Kind], 3000), "concurrent": core.Clip(m.got, 3000), "session": m.sid, "rep": m.rep})
 		}
 		mismatches = nil
 		procs := pl.Processes()
